@@ -92,7 +92,8 @@ def run(ctx):
     ctx.rule = ('random Micheline trees (<=60 nodes, all 158 spellable protocol primitives, ints to 4096 bits at every byte/'
                 'group boundary, 0-3 annotations, empty args/annots/sequences) + byte strings derived by truncation at every '
                 'length, extension, byte/bit substitution, deletion, insertion, non-minimal integer re-encoding; distinct by '
-                'byte string; non-trivial tree = >=3 nodes; every mutant counts')
+                'byte string; non-trivial tree = >=3 nodes; every mutant counts; plus every script, type section, recorded argument and '
+                'storage of the mainnet corpus in the repository tests')
     seen = {}
     for i in range(ntrees):
         e = G.tree(rng, rng.choice([1, 2, 4, 8, 20, 60]))
@@ -107,6 +108,15 @@ def run(ctx):
         if 'int' in e if isinstance(e, dict) else False:
             for klass, m in G.nonminimal_int_mutants(data):
                 judge_bytes(ctx, m, klass, None)
+    # real scripts, types and values (the mainnet corpus shipped with the repository's tests)
+    from rv.gen import corpus as C
+    for k, (kind, e) in enumerate(C.micheline_items()):
+        if ctx.mine(k):
+            ctx.count('corpus_expressions')
+            data = judge_tree(ctx, e, seen)
+            if isinstance(data, bytes) and len(data) < 4000:
+                for klass, m in G.structural_mutants(rng, data, 4):
+                    judge_bytes(ctx, m, klass, None)
     # hand-written structural cases
     for klass, hx in [('nonminimal-int', '008000'), ('nonminimal-int', '00c000'), ('nonminimal-int', '00808000'),
                       ('unknown-prim', '03ee'), ('unknown-prim', '039f'), ('unknown-prim', '03ff'), ('unknown-tag', '0b'),
